@@ -46,7 +46,9 @@ def run(ctx):
         r = json.loads(lines[i - 1])
         mode = {"binary": "binary", "inproc-skip": "inproc-skip-if-unchanged"}.get(r["mode"], "inproc")
         what = "status%d" % r["status"]
-        if not r["saved"] and not r.get("skipped"):
+        if r.get("panic"):
+            what = "panic@%s" % (r.get("site") or "unknown")
+        elif not r["saved"] and not r.get("skipped"):
             what = "no-snapshot"
         key = "backup-status/%s/%s/%s" % (mode, r["key"] or "no-fault", what)
         ctx.violate(key, "backup run (%s, script %d): delivered faults [%s] -> status %d, snapshot saved=%s skipped=%s, items in snapshot %s, extra paths %d, content_ok=%s; err=%s %s (Fn_BackupStatus!RecOK false)"
